@@ -7,6 +7,10 @@
 (b) Rrc/C15Conn.v with real connections in the scripted lab (source-address rewrites, replays, stale
     records, racing candidates, late / misdirected / stale responses, records with a wrong or missing
     connection ID), and
+(b2) the same models with bursts of 1..4 authentic, never-delivered records of OLDER epochs (kept back
+    across key updates / the epoch 2->3 transition) arriving back to back from a non-active address,
+    interleaved with current-epoch records from the active one (the verdict must follow the running
+    MAXIMUM over (epoch, seq), not the epoch accepted last: Rrc/C15Newest.v summary rules), and
 (c) Rrc/C15Router.v with cidDatagramRouter on generated datagrams.
 Implementation-side monitors are the property's own statements (byte budget, where datagrams go,
 which connection ID records carry, what justifies a change of RemoteAddr())."""
@@ -489,6 +493,102 @@ def run(chk):
                      cid_length_pairs=sorted({(c["len_eut"], c["len_peer"]) for c in e2e}),
                      not_negotiated=sum(1 for c in e2e if not c["neg"]))
 
+    # ---------------- (b2) bursts of stale records of older epochs from a new address (DTLS 1.3)
+    out_b = vlib.out_path("c15b")
+    rc, o = vlib.go_test(".", "^TestVerifC15Burst$", dict(env, VERIF_OUT=out_b), timeout=1800, tags=["c15"])
+    burst = vlib.read_jsonl(out_b)
+    vlib.cleanup(out_b)
+    if rc != 0:
+        kind = vlib.classify_go_failure(o)
+        if kind == "panic":
+            chk.finding("conn.go newestRecord / receive path", {"monitor": "panic", "test": "TestVerifC15Burst"},
+                        "panic in stale-burst harness", {"output": o[-3000:]})
+            found_input = True
+        else:
+            chk.broken("correspondence harness TestVerifC15Burst no longer runs against /repo (%s)" % kind, o)
+    elif not burst:
+        chk.broken("correspondence harness TestVerifC15Burst produced no cases", o)
+    how_burst = ("DTLS 1.3 handshake (certificates) with ConnectionIDGenerator lengths len_eut/len_peer, RRC negotiated; "
+                 "`script`: Kn = the peer updates its keys and writes n application records in the OLD epoch after its "
+                 "KeyUpdate and before the ACK reaches it (all kept back), Z = the first record (sequence number 0) of the "
+                 "new epoch is kept back too, A = the peer protects an ACK record of the handshake epoch 2 that is never "
+                 "sent; in between current-epoch records are delivered from the peer's own address. Then the kept records "
+                 "are delivered (`deliver` steps: epoch `epoch`, sequence `seq`, source address `from`) in bursts Bn of n "
+                 "records back to back from cand1/cand2, c = a current-epoch record from the active address between bursts; "
+                 "every path challenge the endpoint emits is relayed through the peer and the response delivered from the "
+                 "challenged address; last, a really newest record from cand1 (positive control). `emits` = what the "
+                 "endpoint sent at each step, `raddr` = RemoteAddr() afterwards, `pre` = protected records (epoch, seq) it "
+                 "was handed during the handshake")
+    for c in burst:
+        m = monitor_e2e(c)
+        if m:
+            found_input = True
+            sig = {"monitor": m.split(": ", 1)[-1].split(" ")[0:4], "neg": c["neg"], "leg": "burst"}
+            if stale_class(m):
+                sig["stale"] = stale_class(m)
+            moved = [(i, s["raddr"]) for i, s in enumerate(c["steps"]) if s["raddr"] in ("cand1", "cand2")]
+            what = m
+            if stale_class(m) and moved:
+                what += "; the challenge was answered (relayed) and RemoteAddr() became %s at step %d" % (
+                    moved[0][1], moved[0][0])
+            chk.finding("conn.go newestRecord (protectedReplayMarker / legacyReplayMarker) / connection_id.go HandleCandidate",
+                        sig, what, {"how": how_burst, "case": c,
+                                    "rerun": "VERIF_SEED=%d bin/check C15 --tier %s" % (chk.seed, chk.tier)})
+            break
+    if ok_model and burst:
+        usable = [c for c in burst if not c.get("err")]
+        bad, err = vlib.coq_mismatches("c15b", IMPORTS, "e2e_case", "e2e_ok", [e2e_term(c) for c in usable],
+                                       shard=40)
+        if bad is None:
+            chk.broken("correspondence evaluation (burst) failed in coqc", err)
+        else:
+            for i in bad[:1]:
+                m = monitor_e2e(usable[i])
+                chk.finding("conn.go newestRecord (protectedReplayMarker / legacyReplayMarker) / connection_id.go HandleCandidate",
+                            {"monitor": "model-mismatch", "neg": usable[i]["neg"], "leg": "burst"},
+                            "observations differ from Rrc/C15Conn.v + Rrc/C15Newest.v" + (": " + m if m else ""),
+                            {"how": how_burst, "case": usable[i], "correspondence": "Rrc.C15Run.e2e_ok"},
+                            no_input=(m is None and not found_input))
+
+        def stale_deliveries(c):
+            """(burst lengths) deliveries from a non-active address of records below the newest received"""
+            mx = max([(x[0], x[1]) for x in c["pre"]]) if c["pre"] else (-1, -1)
+            ra, runs, cur = c["peer"], [], 0
+            for s in c["steps"]:
+                if s["op"] == "deliver":
+                    rid = (s["epoch"], s["seq"])
+                    if s["from"] != ra and rid[0] < mx[0]:
+                        cur += 1
+                    else:
+                        if cur:
+                            runs.append(cur)
+                        cur = 0
+                    mx = max(mx, rid)
+                ra = s["raddr"]
+            if cur:
+                runs.append(cur)
+            return runs
+        nt = [c for c in usable if any(n >= 2 for n in stale_deliveries(c))
+              and any(e["type"] == "chal" for s in c["steps"] for e in s["emits"])]
+        chk.count("burst", len(burst), [(c["eut"], c["len_eut"], c["len_peer"], c["script"],
+                                         tuple((s["op"], s.get("from"), s.get("rkind"), s.get("epoch"), s["seq"])
+                                               for s in c["steps"])) for c in nt],
+                  samples=[{"eut": c["eut"], "lens": [c["len_eut"], c["len_peer"]], "script": c["script"],
+                            "stale_runs": stale_deliveries(c)} for c in nt[-2:]])
+        chk.cov["traces_validated_against_impl"] += len(burst)
+        runs = [n for c in usable for n in stale_deliveries(c)]
+        chk.leg_info("burst", cases=len(burst), steps=sum(len(c["steps"]) for c in burst),
+                     old_epoch_bursts=len(runs), burst_lengths={str(k): runs.count(k) for k in sorted(set(runs))},
+                     old_epoch_records_from_new_address=sum(runs),
+                     epochs_of_stale_records=sorted({s["epoch"] for c in usable for s in c["steps"]
+                                                     if s["op"] == "deliver" and s["from"] in ("cand1", "cand2")}),
+                     late_first_records=sum(1 for c in usable for s in c["steps"] if s["op"] == "deliver"
+                                            and s["seq"] == 0 and s["from"] in ("cand1", "cand2")),
+                     challenges=sum(1 for c in burst for s in c["steps"] for e in s["emits"] if e["type"] == "chal"),
+                     address_changes=sum(1 for c in burst for a, b in zip(
+                         [c["peer"]] + [s["raddr"] for s in c["steps"]], [s["raddr"] for s in c["steps"]]) if a != b),
+                     errors=sum(1 for c in burst if c.get("err")))
+
     # ---------------- (c) router
     out_r = vlib.out_path("c15r")
     rc, o = vlib.go_test(".", "^TestVerifC15Router$", dict(env, VERIF_OUT=out_r), tags=["c15"])
@@ -642,7 +742,15 @@ def run(chk):
              "liveness monitor 'the newest received CID record from a non-active address is challenged unless a "
              "challenge to it is pending or the 3x budget cannot pay'; "
              "non-trivial = at least one RRC record emitted and one record from a non-active address that caused "
-             "none; distinct by configuration and full script. router: generated record lists incl. bad versions and "
+             "none; distinct by configuration and full script. burst (DTLS 1.3, IDs + RRC, both roles): authentic "
+             "never-delivered records of OLDER epochs - written by the peer after its KeyUpdate and before the ACK (1-2 "
+             "key updates, 2-5 records each, each above everything accepted in its own epoch), ACK records of the "
+             "handshake epoch 2, sometimes the first record of a new epoch - arrive from cand1/cand2 in bursts of 1-4 back "
+             "to back (oldest first per epoch, or shuffled), separated by 0-2 current-epoch records from the active "
+             "address; every challenge is relayed and answered so that a wrong address change shows; same monitors and "
+             "model comparison as e2e (a challenge / address change only on a record above every record accepted so far "
+             "in (epoch, sequence) order), positive control at the end; non-trivial = a burst of >= 2 older-epoch records "
+             "from a non-active address and a challenge for the control. router: generated record lists incl. bad versions and "
              "truncation; non-trivial = an ID found behind at least one skipped record. listener: real listenWithConfig "
              "over loopback UDP, 2-3 clients, fresh records of connection x sent from its own socket / another live "
              "client's socket / a new socket (with and without answering the challenge) / with an altered ID, every "
